@@ -461,13 +461,15 @@ func (a *natsKeyValueAdapter) Watch(key string, opts ...interface{}) (Watcher, e
 	if err != nil {
 		return nil, err
 	}
-	return &natsWatcherAdapter{watcher: natsWatcher}, nil
+	return &natsWatcherAdapter{watcher: natsWatcher, done: make(chan struct{})}, nil
 }
 
 type natsWatcherAdapter struct {
 	watcher   nats.KeyWatcher
 	once      sync.Once
 	entryChan chan Entry
+	stopOnce  sync.Once
+	done      chan struct{}
 }
 
 // Updates returns the same channel on every call; the forwarding goroutine is
@@ -479,10 +481,15 @@ func (a *natsWatcherAdapter) Updates() <-chan Entry {
 		go func() {
 			defer close(entryChan)
 			for natsEntry := range a.watcher.Updates() {
+				var entry Entry
 				if natsEntry != nil {
-					entryChan <- &natsEntryAdapter{entry: natsEntry}
-				} else {
-					entryChan <- nil
+					entry = &natsEntryAdapter{entry: natsEntry}
+				}
+				// After Stop nobody receives any more: do not block on the send.
+				select {
+				case entryChan <- entry:
+				case <-a.done:
+					return
 				}
 			}
 		}()
@@ -491,6 +498,7 @@ func (a *natsWatcherAdapter) Updates() <-chan Entry {
 }
 
 func (a *natsWatcherAdapter) Stop() {
+	a.stopOnce.Do(func() { close(a.done) })
 	_ = a.watcher.Stop()
 }
 
